@@ -227,10 +227,36 @@ func universeWriteScan(p *core.Program, r *core.Report, rule string, only map[*c
 		}
 		// a slice read from the record shares its backing array with it: appending into it (or a reslice of it) and
 		// assigning its elements writes the record
-		sharesRecord := func(e ast.Expr) bool {
+		var sharesRecord func(e ast.Expr) bool
+		visiting := map[*types.Var]bool{}
+		sharesRecord = func(e ast.Expr) bool {
 			for i := 0; i < 12; i++ {
 				e, _ = core.Resolve(info, root.Body, e)
 				switch x := ast.Unparen(e).(type) {
+				case *ast.Ident:
+					// a local with several definitions: it shares the record if one of its values does
+					v := core.VarOf(info, x)
+					if v == nil || v.IsField() || visiting[v] {
+						return false
+					}
+					visiting[v] = true
+					defer delete(visiting, v)
+					for _, d := range core.DefsOf(info, root.Body, v) {
+						if d.Rhs == nil || d.Index > 0 {
+							continue
+						}
+						rhs := ast.Unparen(d.Rhs)
+						if c, isCall := rhs.(*ast.CallExpr); isCall && core.CalleeName(info, c) == "builtin.append" && len(c.Args) >= 1 {
+							rhs = c.Args[0] // append keeps the backing array of its first operand (when it fits)
+							if core.VarOf(info, rhs) == v {
+								continue
+							}
+						}
+						if sharesRecord(rhs) {
+							return true
+						}
+					}
+					return false
 				case *ast.SliceExpr:
 					e = x.X
 					continue
